@@ -73,8 +73,10 @@ pub fn user_string(kind: StrKind) -> BoxedStrategy<String> {
         ]
         .boxed(),
         StrKind::Ident => prop_oneof![
-            3 => prop::sample::select(vec!["a", "b", "c", "out.txt", "pool1", "ssd", "user.tag", "trusted.lov", "X", "v1"]).prop_map(|s| s.to_string()),
-            1 => "[a-z][a-z0-9._]{0,6}",
+            6 => prop::sample::select(vec!["a", "b", "c", "out.txt", "pool1", "ssd", "user.tag", "trusted.lov", "X", "v1"]).prop_map(|s| s.to_string()),
+            2 => "[a-z][a-z0-9._]{0,6}",
+            // words taken from the sources under test (a name that is special to the code must still be plain data)
+            1 => prop::sample::select(crate::dict::words()),
         ]
         .boxed(),
     }
@@ -146,6 +148,9 @@ pub fn supported_fields() -> Vec<Fld> {
         Fld::StripeSize,
         Fld::XAttr("tag".into()),
         Fld::XAttr("user".into()),
+        // attribute names that coincide with built-in directive names
+        Fld::XAttr("fid".into()),
+        Fld::XAttr("projid".into()),
     ]
 }
 pub fn unsupported_fields() -> Vec<Fld> {
@@ -249,7 +254,12 @@ pub fn unsupported_test() -> BoxedStrategy<Tst> {
 }
 
 pub fn file_name() -> BoxedStrategy<String> {
-    prop::sample::select(vec!["a", "b", "c", "out.txt"]).prop_map(|s| s.to_string()).boxed()
+    prop_oneof![
+        8 => prop::sample::select(vec!["a", "b", "c", "out.txt"]).prop_map(|s| s.to_string()),
+        // special files and path-like tokens from the sources under test
+        1 => prop::sample::select(crate::dict::paths()),
+    ]
+    .boxed()
 }
 
 pub fn supported_action() -> BoxedStrategy<Act> {
